@@ -61,7 +61,7 @@ deciding obligation existed but not in C08's set); X16 and X17 were caught by th
 stood; X20 was MISSED on the first pass (the serde contracts only looked at quiescent states) and is
 caught after `c20_serialize_protected` was added; X06 (rcu drops its guard before the exchange and
 passes a raw address – an address-reuse hazard; its own author reports that the existing rcu test
-fails in ~1% of suite runs with it, so it only just meets the 'passes the existing tests' bar):
+fails in about one of a hundred suite runs with it, so it only just meets the 'passes the existing tests' bar):
 see its row. Lesson of this wave: *frames* (what a function must leave alone – the slots at
 thread exit, a reused slot at guard drop) and *protection during a user callback* (serialize) were
 the blind spots; each is now a named obligation.
